@@ -756,6 +756,8 @@ where
 
         // Aggregate potential victims.
         while victims.weight < candidate.weight {
+            #[cfg(mini_moka_verif)]
+            crate::verif::switch(crate::verif::Point::MaintenanceLoopIter);
             if candidate.freq < victims.freq {
                 break;
             }
